@@ -150,3 +150,19 @@ def run(rep, tier):
                 return self.rep.add('R12', key, ok, where, detail, nontrivial, data)
             return ok
     c14.rule_r4(S12(rep, 'R12'), {tu: cast.load(tu) for tu in c14.MAINS})
+    # R13: the name of every token can be produced without undefined behaviour (diagnostics and --tokens print it)
+    rep.rule('R13', 'tokenEnumStr is defined for every enumerator of hexasm::Token: it returns a name or throws a std::exception, it never '
+             'indexes outside a table (the lexer yields Token::NONE for any stray character, so a diagnostic names it)', floor=30)
+    f_str = idx.func('hexasm::tokenEnumStr')
+    for name, v in sorted(toks.items(), key=lambda kv: kv[1]):
+        I = ivinterp.Interp(idx)
+        try:
+            r_ = I.invoke(f_str, None, [const(32, True, v)])
+            ok, detail = not I.ub, 'returns %r' % (r_,)
+        except Thrown as e:
+            ok = not I.ub
+            detail = ('undefined behaviour: %s' % I.ub) if I.ub else 'throws %s' % e.what
+        except NeedSplit as e:
+            rep.undecided('R13', 'tokenEnumStr(%s)' % name, 'not concrete: %s' % e, pos(f_str.node))
+            continue
+        rep.add('R13', 'tokenEnumStr(%s)' % name, ok, pos(f_str.node) + ' hexasm::tokenEnumStr', detail, nontrivial=False)
